@@ -31,6 +31,12 @@ ACCESSOR_DEPENDENT = D.ACCESSOR_OPS | {D.LREMOVE, D.DSETDEFAULT}
 def leaf_enc(impl, v):
   return impl.enc_leaf(v, None)
 
+def own_items(impl, o):
+  """What a sealed container itself holds: its flags, keys, leaf values and the identities of its symbolic children
+  (a child that was explicitly unsealed may legitimately change below it)."""
+  return ([o.is_sealed, o.accessor_writable, o.allow_partial],
+          [(repr(k), id(v) if D.is_sym(v) else tuple(impl.enc_leaf(v, None))) for k, v in D.sym_children(o)])
+
 def would_change(impl, target, op):
   """True only when the operation certainly changes the target if it is allowed to run (syntactic, conservative)."""
   tag = op[0]
@@ -100,7 +106,7 @@ class Oracle:
         if ok and D.is_sym(x): owners.append(x)
     prot = [o for o in owners if sealed(o)]
     return dict(forest=impl.snapshot(), target=target, protected=prot, s_scope=s_scope,
-                prot_snaps=[impl.snap(o, o.sym_parent, None) for o in prot],
+                prot_snaps=[own_items(impl, o) for o in prot],
                 how='scope' if s_scope is not None else 'flag', ahow='scope' if a_scope is not None else 'flag',
                 writable=writable(target), would_change=would_change(impl, target, op))
   def _check_refs(self, impl, v):
@@ -122,7 +128,7 @@ class Oracle:
       self.stats['protected_attempts'] += 1
       if tag == D.REBIND:
         for o, s0 in zip(before['protected'], before['prot_snaps']):
-          if impl.snap(o, o.sym_parent, None) != s0:
+          if own_items(impl, o) != s0:
             hit('sealed-changed', before['how'], 'rebind changed a container that is treated as sealed (%s)' % before['how'])
             break
       else:
@@ -222,7 +228,7 @@ def quiet():
 
 def surface_probe_one(c):
   """Replays one sweep finding {kind:'surface', cls, name, mode}: True iff it still fails."""
-  return bool(_surface_hits(only=(c['cls'], c['name'])))
+  return bool(_surface_hits(only=(c['cls'], c['name']))) or bool(_mutator_hits(only=(c['cls'], c['name']))[0])
 
 def _surface_hits(only=None):
   import io, contextlib as cl
@@ -271,6 +277,43 @@ def _surface_hits(only=None):
           break
   return hits if only else (hits, listed)
 
+MUTATOR_CALLS = {
+    'List': {'__setitem__': [(0, 5), (slice(0, 1), [7])], '__delitem__': [(0,)], 'append': [(1,)], 'insert': [(0, 1)], 'extend': [([1],)], 'pop': [()], 'remove': [(1,)],
+             'clear': [()], 'reverse': [()], 'sort': [()], '__iadd__': [([1],)], '__imul__': [(2,), (0,)], 'rebind': [({0: 9},)], 'sym_rebind': [({0: 9},)]},
+    'Dict': {'__setitem__': [('a', 5), ('new', 1)], '__setattr__': [('a', 5)], '__delitem__': [('a',)], '__delattr__': [('a',)], 'pop': [('a',)], 'popitem': [()],
+             'clear': [()], 'setdefault': [('new', 1)], 'update': [({'a': 7},)], '__ior__': [({'a': 7},)], 'rebind': [({'a': 9},)], 'sym_rebind': [({'a': 9},)]},
+    'Object': {'__setattr__': [('x', 5)], 'rebind': [({'x': 9},)], 'sym_rebind': [({'x': 9},)]},
+}
+def _mutator_hits(only=None):
+  """Every mapped mutator, called directly (dunder names included) on an instance sealed by flag / by scope, must raise
+  WritePermissionError and leave the instance unchanged."""
+  P = D.pg()
+  makers = _instances()
+  hits, n = [], 0
+  for kind, table in MUTATOR_CALLS.items():
+    for name, arglists in table.items():
+      if only and (kind, name) != only:
+        continue
+      for args in arglists:
+        for how in ('flag', 'scope'):
+          x = makers[kind]()
+          if how == 'flag': x.seal()
+          impl = D.Impl(); impl.roots.append(x)
+          s0 = impl.snapshot()
+          err = None
+          try:
+            with (P.as_sealed(True) if how == 'scope' else _cl.nullcontext()), quiet():
+              getattr(x, name)(*args)
+          except BaseException as e:     # pylint: disable=broad-except
+            err = e
+          n += 1
+          if impl.snapshot() != s0 or not isinstance(err, P.WritePermissionError):
+            hits.append(('C08/surface/%s.%s/sealed-%s' % (kind, name, how),
+                         '%s.%s%r on an instance treated as sealed (%s): %s, instance %s' % (
+                             kind, name, args, how, type(err).__name__ if err else 'no error', 'changed' if impl.snapshot() != s0 else 'unchanged'),
+                         dict(kind='surface', cls=kind, name=name)))
+  return hits, n
+
 def surface_sweep(ctx):
   hits, listed = _surface_hits()
   for sig, what, case in hits:
@@ -281,35 +324,7 @@ def surface_sweep(ctx):
                                     excluded={'%s.%s' % k: v for k, v in listed.items() if v.startswith('excluded')})
   ctx.log('surface sweep: %d callable attributes (%d mapped, %d executed as read-only on a sealed instance, %d excluded by name), %d hits' % (
       len(listed), ctx.extra['surface_sweep']['mapped'], ctx.extra['surface_sweep']['read_only_executed'], len(ctx.extra['surface_sweep']['excluded']), len(hits)))
-  # mapped mutators: each must refuse on a sealed instance (direct call of the attribute, including dunder names)
-  P = D.pg()
-  makers = _instances()
-  calls = {
-      'List': {'__setitem__': [(0, 5), (slice(0, 1), [7])], '__delitem__': [(0,)], 'append': [(1,)], 'insert': [(0, 1)], 'extend': [([1],)], 'pop': [()], 'remove': [(1,)],
-               'clear': [()], 'reverse': [()], 'sort': [()], '__iadd__': [([1],)], '__imul__': [(2,), (0,)], 'rebind': [({0: 9},)], 'sym_rebind': [({0: 9},)]},
-      'Dict': {'__setitem__': [('a', 5), ('new', 1)], '__setattr__': [('a', 5)], '__delitem__': [('a',)], '__delattr__': [('a',)], 'pop': [('a',)], 'popitem': [()],
-               'clear': [()], 'setdefault': [('new', 1)], 'update': [({'a': 7},)], '__ior__': [({'a': 7},)], 'rebind': [({'a': 9},)], 'sym_rebind': [({'a': 9},)]},
-      'Object': {'__setattr__': [('x', 5)], 'rebind': [({'x': 9},)], 'sym_rebind': [({'x': 9},)]},
-  }
-  n = 0
-  for kind, table in calls.items():
-    for name, arglists in table.items():
-      for args in arglists:
-        for how in ('flag', 'scope'):
-          x = makers[kind]()
-          if how == 'flag': x.seal()
-          impl = D.Impl(); impl.roots.append(x)
-          s0 = impl.snapshot()
-          err = None
-          try:
-            with (P.as_sealed(True) if how == 'scope' else __import__('contextlib').nullcontext()):
-              getattr(x, name)(*args)
-          except BaseException as e:     # pylint: disable=broad-except
-            err = e
-          n += 1
-          if impl.snapshot() != s0 or not isinstance(err, P.WritePermissionError):
-            ctx.hit('C08/surface/%s.%s/sealed-%s' % (kind, name, how),
-                    '%s.%s%r on an instance treated as sealed (%s): %s, instance %s' % (kind, name, args, how, type(err).__name__ if err else 'no error',
-                                                                                     'changed' if impl.snapshot() != s0 else 'unchanged'),
-                    dict(kind='surface', cls=kind, name=name))
+  mh, n = _mutator_hits()
+  for sig, what, case in mh:
+    ctx.hit(sig, what, case)
   ctx.extra['surface_sweep']['mutator_calls_on_sealed'] = n
